@@ -452,9 +452,10 @@ PLAN["C12"] = dict(
 
 PLAN["C17"] = dict(
     level="other",
-    functions=[(SORT, "sort#passes"), (INDEX, "run#index-loop"), (GAFPY, "GAF.parse_gaf_line")],
+    functions=[(SORT, "sort#passes"), (INDEX, "run#index-loop"), (GAFPY, "GAF.parse_gaf_line"), (GFA, "GFA.read_graph#s-lines"), (GFA, "GFA.read_graph#l-lines")],
     lemmas=[io_c.handle_usage_lemma],
-    explanation="PROVED: every consumer of a GAF handle (index.run, sort.sort, GAF.read_file / read_line / close, view.run) touches it only through "
+    explanation="PROVED: the graph read by read_graph is a function of the LIST OF LINES the file handle yields (both loops are verified over that list), "
+                "so a plain and a gzip-compressed GFA with the same lines give the same graph. Every consumer of a GAF handle (index.run, sort.sort, GAF.read_file / read_line / close, view.run) touches it only through "
                 "tell / readline / seek / close / iteration (syntactic frame obligation on the working tree), and the loops of index.run and sort.sort "
                 "are verified against the ABSTRACT reader contract (opaque strictly increasing offsets), so their postconditions (C03, C09, C10) hold "
                 "for any handle that satisfies it; parse_gaf_line's postcondition does not depend on gz_flag. ASSUMED (the substance of the property): "
